@@ -241,6 +241,11 @@ def _list(x=()):
         return x.copy('list')
     if isinstance(x, SObj) and vector_items(x) is not None and isinstance(x.f.get('_items'), SSeq):
         return x.f['_items'].copy('list')
+    if isinstance(x, SObj) and isinstance(x.f.get('_items'), list):
+        from cryptoparser.common.base import ArrayBase
+        if issubclass(x.cls, ArrayBase):
+            used('iterating an ArrayBase object yields the elements of its _items in order (its __len__/__getitem__)')
+            return list(x.f['_items'])
     if isinstance(x, (loops.SRange, loops.SEnumerate, SObj)):
         v = loops.iteration_view(x)
         if v[0] == 'concrete':
@@ -597,6 +602,12 @@ def abstract_coded(sp, x):
     if isinstance(x, SEnum) and x.cls is sp.enum_cls:
         return V.enum_table(sp.enum_cls, x.idx, lambda m: m.value.code)
     if isinstance(x, _enum.Enum) and type(x) is sp.enum_cls:
+        return z3.IntVal(x.value.code)
+    if isinstance(x, _enum.Enum) and hasattr(x.value, 'code') and isinstance(x.value.code, int) \
+            and hasattr(x.value, 'get_code_size') and x.value.get_code_size() == sp.width and not sp.wrap_known:
+        # a member of another coded enumeration of the same width (the SCSV markers among cipher suites): it is viewed
+        # through its code; composing it emits the same bytes as the fallback item carrying that code
+        used('a coded-enum member of a foreign table inside a coded vector is abstracted to its code')
         return z3.IntVal(x.value.code)
     if sp.fallback_cls is not None and isinstance(x, SObj) and x.cls is sp.fallback_cls:
         c = as_int(x.f['code'])
